@@ -11,7 +11,7 @@ LEVEL = "fault_enumeration"
 RULE = (
     "fault = (iteration index k, origin) ; every k in 0..n-1 is enumerated for n=5 (quick) / n in {3,5,8} (thorough) x "
     "origin in {optimizer update of an nn leaf, optimizer update of an equation parameter, gradient of an nn leaf, "
-    "gradient of an equation parameter, loss value} x optimizer in {sgd, adam, clip+adam} x loss in {ODE, stationary}. "
+    "gradient of an equation parameter, loss value; whole leaf or a single entry of a multi-entry leaf} x optimizer in {sgd, adam, clip+adam} x loss in {ODE, stationary}. "
     "The injection is deterministic and owned by the harness (an optax transformation with a step counter; for the "
     "loss-value origin an equation parameter advanced by +1 per step trips a NaN residual at iteration k). Oracle: the "
     "same program run by the eager reference loop with the same injection: training stops after iteration k, returned "
@@ -21,7 +21,7 @@ RULE = (
 )
 ASSUMPTIONS = ["rtol 1e-7 between jitted solve and eager reference (x64); NaN entries compared as equal"]
 
-ORIGINS = ["update_nn", "update_eq", "grad_nn", "grad_eq", "loss_value"]
+ORIGINS = ["update_nn", "update_eq", "grad_nn", "grad_eq", "loss_value", "update_nn_partial", "grad_nn_partial"]
 
 
 def base_cfg(kind, variant, opt, tracked):
